@@ -217,9 +217,22 @@ func rotationProjects(c *core.Ctx, n int) []*gen.Project {
 				}
 			}
 		}
+		// fixed sowing dates with automatic harvest: the rotation file's harvest date lies AFTER the latest harvest date of
+		// the table (the table's date is the one that binds)
+		lateRot := i%5 == 0 && p.Cfg.AutoHarv == 1
+		if lateRot {
+			for k := 1; k < len(p.Rotation); k++ {
+				y, _, _ := gen.YMD(p.Rotation[k].Sow)
+				p.Rotation[k].Harv = gen.DayNum(y, 11, 3+r.Intn(20))
+			}
+		}
+		// several configurations in one project folder (batch line fileExtension=<ext>)
+		if i%4 == 2 && p.Cfg.CropFileFormat != "csv" {
+			p.FileExt = []string{"alt", "v2", "b"}[r.Intn(3)]
+		}
 		// no fixed-date tillage between sowing and (latest) harvest
 		p.Till, p.Fert, p.Irr = nil, nil, nil
-		p.Arms = []string{fmt.Sprintf("autoSow=%d autoHarv=%d autoIrr=%d autoFert=%d crops=%d autorg=%d/%s irrmax0=%v earlyLatest=%v", p.Cfg.AutoSow, p.Cfg.AutoHarv, p.Cfg.AutoIrr, p.Cfg.AutoFert, len(p.Rotation)-1, p.Rotation[0].AutOrg, rows[0].OrgTime, p.Cfg.AutoIrr == 1 && (o.Drought || i%3 == 0), earlyLatest)}
+		p.Arms = []string{fmt.Sprintf("autoSow=%d autoHarv=%d autoIrr=%d autoFert=%d crops=%d autorg=%d/%s irrmax0=%v earlyLatest=%v lateRot=%v fileExt=%q", p.Cfg.AutoSow, p.Cfg.AutoHarv, p.Cfg.AutoIrr, p.Cfg.AutoFert, len(p.Rotation)-1, p.Rotation[0].AutOrg, rows[0].OrgTime, p.Cfg.AutoIrr == 1 && (o.Drought || i%3 == 0), earlyLatest, lateRot, p.FileExt)}
 		ps = append(ps, p)
 	}
 	return ps
